@@ -239,6 +239,7 @@ struct Sess : public TestChain100Setup {
     UniValue Apply(const UniValue& a)
     {
         const std::string op = a[0].get_str();
+        if (!w && op != "reload" && op != "scan") return Obj({{"ok", false}, {"err", "no wallet loaded"}});
         if (op == "new") return NewAddr(*ParseOutputType(a[1].get_str()), false, a.size() > 2 ? a[2].get_str() : "");
         if (op == "change") return NewAddr(*ParseOutputType(a[1].get_str()), true, a.size() > 2 ? a[2].get_str() : "");
         if (op == "topup") return Obj({{"ok", w->TopUpKeyPool((unsigned)a[1].getInt<int>())}});
